@@ -44,7 +44,7 @@ def r1(ctx):
     st = [s for s in util.store_sites(hp.node) if s.kind == "subscript" and util.const_key(s.target) == "HP"]
     ctx.require(len(st) == 1, "store to call['HP'] not found in _set_HP")
     v = st[0].value
-    ok_shape = isinstance(v, ast.Call) and isinstance(v.func, ast.Attribute) and v.func.attr == "join" and isinstance(v.func.value, ast.Constant) and isinstance(v.args[0], ast.GeneratorExp)
+    ok_shape = isinstance(v, ast.Call) and isinstance(v.func, ast.Attribute) and v.func.attr == "join" and isinstance(v.func.value, ast.Constant) and isinstance(v.args[0], (ast.GeneratorExp, ast.ListComp))
     ctx.require(ok_shape, "HP value is not '<sep>'.join(<item> for allele in phase)")
     item_sep = v.func.value.value
     gen = v.args[0]
@@ -172,7 +172,27 @@ def r1(ctx):
     from rules.common import dispatch_table
 
     table = dispatch_table(slot[0].value, "tag") if len(slot) == 1 else None
-    if len(slot) == 1 and table is None:
+    if len(slot) > 1:
+        # one store per branch of an if statement on the tag
+        icfg = ctx.cfg(init)
+        table = {}
+        for s_ in slot:
+            ga_ = guard_atoms(icfg, icfg.node_of(s_.stmt))
+            keys_ = [k_ for k_ in ("HP", "PS") if ("%r == tag" % k_, True) in ga_]
+            if len(keys_) == 1:
+                key_ = keys_[0]
+            elif not keys_ and (("'HP' == tag", False) in ga_ or ("'PS' == tag", False) in ga_):
+                key_ = "<else>" if ("'HP' == tag", False) in ga_ else "<else-of-PS>"
+            else:
+                table = None
+                break
+            if key_ in table:
+                table = None
+                break
+            table[key_] = u(s_.value)
+        if table is not None and "<else-of-PS>" in table:
+            table = None  # `everything but PS` is HP only if no other tag value can arrive here: not read by this rule
+    if (len(slot) == 1 and table is None) or (len(slot) > 1 and table is None):
         ctx.ob(init.qual, "setter-slot-follows-tag", None, init.loc(slot[0].stmt), "cannot read `%s` as a choice by tag" % u(slot[0].value)[:80])
     else:
         ok = table is not None and table.get("HP") == "self._set_HP" and (table.get("PS", table.get("<else>")) == "self._set_PS") and set(table) <= {"HP", "PS", "<else>"}
@@ -343,6 +363,8 @@ def r4(ctx):
             stores_block = any(u(t) == "read_map[%s.block_id]" % ph for t in n_.targets)
             if names_ and (vtxt in ("read_map.get(%s.block_id)" % ph, "read_map[%s.block_id]" % ph) or stores_block):
                 block_lists.update(names_)
+            if stores_block and isinstance(n_.value, ast.Name):
+                block_lists.add(n_.value.id)  # built in a local first, then stored under the block (checked below)
     for nm in list(block_lists):
         stored = any(isinstance(n_, ast.Assign) and any(u(t) == "read_map[%s.block_id]" % ph for t in n_.targets) and u(n_.value) == nm for n_ in ast.walk(loop))
         for s_, v_ in util.assignments_to(fi.node, nm):
